@@ -33,6 +33,14 @@ def handle (op : String) (a : Json) : Except String Json := do
         ("valid", boolJ (valid r)), ("poly", boolJ isPoly), ("bounds", boundsJ rb),
         ("post", boolJ (bufferPostTol tol b tb fb rb)), ("post_strict", boolJ (bufferPost b tb fb rb)),
         ("shortfall", ratsJ (shortfall b tb fb rb))])
+  | "pipeline_args" =>
+    -- the straight-line skeleton of `buffer_shapely_geometry` on a probe point `(px, py)` of the
+    -- input, a probe point `(qx, qy)` of GEOS's buffer, its largest x `qm` and the observed upper
+    -- time `xmax` of the clip rectangle (judged only against the largest time of the unscaled buffer)
+    let (sc, d, un, r0, r1, ok, r3) := pipelineSkeleton (← fldRat a "px") (← fldRat a "py")
+      (← fldRat a "qx") (← fldRat a "qy") (← fldRat a "qm") (← fldRat a "xmax") (← fldRat a "tb") (← fldRat a "fb")
+    return valJ (Json.mkObj [("scaled", ratsJ [sc.1, sc.2]), ("dist", ratJ d),
+      ("unscaled", ratsJ [un.1, un.2]), ("rect", ratsJ [r0, r1, r3]), ("clip_keeps_max_time", boolJ ok)])
   | _ => .error s!"C11: unknown op {op}"
 
 end SE.Ops.C11
